@@ -9,25 +9,25 @@ TEXT = {
         "level": "Exploration by runtime monitoring: every BDD builder call in generated operation histories is observed at the API boundary and compared with an independent truth-table oracle; all 3-variable functions x all orders x both caches are enumerated completely, larger spaces (<=12 variables, histories up to 2000 ops, tiny hook capacities so growth and eviction happen constantly) are sampled. Right level because the property is a functional-correctness claim over unbounded programs: an oracle over executions decides each execution exactly, reach comes from volume and hostile configurations.",
         "design_ref": "DESIGN.md section 4, C01",
         "note": NOTE,
-        "technique": "runtime monitor: truth-table reference model over generated operation histories (bounded-exhaustive + random + long hostile), history-independence re-walks, standard-triple side monitor; wide regime (history variables spread over up to 200 labels)",
+        "technique": "runtime monitor: truth-table reference model over generated operation histories (bounded-exhaustive + random + long hostile), history-independence re-walks, standard-triple side monitor; wide regime (history variables spread over up to 200 labels); fault injection on hash quality (verif hooks: node hashes in a few classes, lossy-cache triple hashes in 1-17 classes) with clash counters; order handle held across run-time variable creation",
     },
     "C02": {
         "level": "Exploration by runtime monitoring: canonicity is decided per execution by a map from oracle truth table to first pointer (iff over all pairs in O(1) per event), a structural invariant walker over every reachable node, a table-membership probe re-run after every growth, and a direct set-model monitor of the robin-hood table under adversarial hashes and 2..16-slot initial capacities; Miri/ASan legs cover the unsafe get_or_insert across growth.",
         "design_ref": "DESIGN.md section 4, C02",
         "note": NOTE,
-        "technique": "runtime monitor: canonicity map keyed by oracle truth table + structural invariant walker + unique-table set model under adversarial hashes (feature-guarded capacity hook); Miri and AddressSanitizer legs; wide regime (history variables spread over up to 200 labels)",
+        "technique": "runtime monitor: canonicity map keyed by oracle truth table + structural invariant walker + unique-table set model under adversarial hashes (feature-guarded capacity hook); Miri and AddressSanitizer legs; wide regime (history variables spread over up to 200 labels); fault injection on hash quality (verif hooks: node hashes in a few classes, lossy-cache triple hashes in 1-17 classes) with clash counters",
     },
     "C03": {
         "level": "Exploration by runtime monitoring: every SDD builder call in generated histories is compared with a truth-table oracle through an independent structural walker; all vtrees on 3 and 4 leaves are enumerated, larger vtrees of every family and both compression modes are sampled, tables start tiny so they grow constantly, and earlier results are re-evaluated periodically.",
         "design_ref": "DESIGN.md section 4, C03",
         "note": NOTE,
-        "technique": "runtime monitor: truth-table reference model over generated SDD operation histories, all small vtrees enumerated, apply-case coverage recorded; wide regime (vtree variables spread over up to 200 labels)",
+        "technique": "runtime monitor: truth-table reference model over generated SDD operation histories, all small vtrees enumerated, apply-case coverage recorded; wide regime (vtree variables spread over up to 200 labels); fault injection on hash quality (verif hooks: node hashes in a few classes, lossy-cache triple hashes in 1-17 classes) with clash counters",
     },
     "C04": {
         "level": "Exploration by runtime monitoring: a structural invariant walker checks every decision node reachable from every result (partition of primes, vtree scoping of primes and subs, compression, trimming) from oracle truth tables, and a canonicity map keyed by truth table covers results and all sub-nodes in both polarities; unique tables start at 2..64 slots (hook) so growth is constant; Miri leg on a small history.",
         "design_ref": "DESIGN.md section 4, C04",
         "note": NOTE,
-        "technique": "runtime monitor: structural invariant walker at every quiescent point + canonicity map keyed by oracle truth table; Miri leg; wide regime (vtree variables spread over up to 200 labels)",
+        "technique": "runtime monitor: structural invariant walker at every quiescent point + canonicity map keyed by oracle truth table; Miri leg; wide regime (vtree variables spread over up to 200 labels); fault injection on hash quality (verif hooks: node hashes in a few classes, lossy-cache triple hashes in 1-17 classes) with clash counters",
     },
     "C05": {
         "level": "Exploration by runtime monitoring: each compilation (CNF, expression, dtree plan, compile-under-assignment) on BDD and SDD builders under random orders / vtrees is compared with the harness's own evaluation of the input on all assignments, plus pointer-equality between the alternative routes inside one builder.",
@@ -63,7 +63,7 @@ TEXT = {
         "level": "Exploration by runtime monitoring with large exhaustive parts: the algebraic laws are asserted on every triple of finite grids / boundary sets per type and per exported prime, results are compared with independent reference arithmetic, in both build profiles.",
         "design_ref": "DESIGN.md section 4, C13",
         "note": NOTE,
-        "technique": "runtime monitor: algebraic-law assertions and reference-arithmetic comparison over exhaustive grids and boundary residues, in overflow-checked and unchecked builds; bit-length grid over all operand bit lengths for the seven exported primes",
+        "technique": "runtime monitor: algebraic-law assertions and reference-arithmetic comparison over exhaustive grids and boundary residues, in overflow-checked and unchecked builds; bit-length grid over all operand bit lengths for the seven exported primes; complex subtraction",
     },
     "C14": {
         "level": "Exploration by runtime monitoring: every order, dtree, dtree-derived vtree and vtree-manager table the library produces for generated CNFs / trees is inspected structurally and compared with the definition recomputed by the harness; all vtree shapes on <= 6 leaves, all node pairs for lca, and all elimination orders for small CNFs are enumerated.",
@@ -87,7 +87,7 @@ TEXT = {
         "level": "Exploration by runtime monitoring: hashes returned by the library for many representations of one function are compared with the defining sum computed independently from the truth table (which also makes them equal to each other), negation and cached-vs-recomputed are checked, and the hash-identified builders are driven through operation histories with an eq()-on-equal-functions monitor (all primes) and a truth-table oracle (64-bit prime).",
         "design_ref": "DESIGN.md section 4, C11",
         "note": NOTE,
-        "technique": "runtime monitor: defining-sum reference model for hashes across representations + operation-history monitor of the semantic builders (equality on equal functions; truth-table oracle over the 64-bit field); builder hash accessors; semantic SDD builders over spread labels; Miri leg on the hash-identified builders, AddressSanitizer leg on the whole workload incl. 524 286-node by-hash tables; zero-divisor construction against the exported 64-bit modulus",
+        "technique": "runtime monitor: defining-sum reference model for hashes across representations + operation-history monitor of the semantic builders (equality on equal functions; truth-table oracle over the 64-bit field); builder hash accessors; semantic SDD builders over spread labels; Miri leg on the hash-identified builders, AddressSanitizer leg on the whole workload incl. 524 286-node by-hash tables; zero-divisor construction against the exported 64-bit modulus; recorded collision witnesses of the 64-bit semantic hash (F18)",
     },
     "C12": {
         "level": "Exploration by runtime monitoring: every optimisation query (marginal MAP, MEU, generic branch and bound in both semirings) on generated BDDs is compared for exact equality with exhaustive maximisation computed by the oracle from the truth table, and the returned model is re-evaluated by the oracle; near-ties and tiny magnitudes are generated deliberately because pruning errors depend on the relation between sibling bounds.",
@@ -99,24 +99,24 @@ TEXT = {
         "level": "Exploration by runtime monitoring: the lossy cache is checked against a map model with permitted forgetting under adversarial hashes and tiny capacities; BDD builders with both cache kinds replay identical histories and must return identical canonical diagrams; warm SDD caches are compared with cold ones. Floors make sure overwrites, growth and hits were actually observed (feature-guarded capacity hook).",
         "design_ref": "DESIGN.md section 4, C16",
         "note": NOTE,
-        "technique": "runtime monitor: map model with permitted forgetting over insert/get histories + paired-builder differential (all-cache vs tiny lossy cache) + warm-vs-cold SDD replay; ITE-cache adapters driven directly through the IteTable trait with colliding hashes",
+        "technique": "runtime monitor: map model with permitted forgetting over insert/get histories + paired-builder differential (all-cache vs tiny lossy cache) + warm-vs-cold SDD replay; ITE-cache adapters driven directly through the IteTable trait with colliding hashes; paired histories under degraded triple hashes (hook H7)",
     },
     "C17": {
         "level": "Exploration by runtime monitoring: generated DIMACS texts and s-expressions are parsed by rsdd and compared with the harness's own evaluation under the documented numbering; print/re-parse round trips are compared as clause sets; JSON serialisations of BDDs, SDDs and vtrees are read by an independent Python reader and compared with oracle truth tables / trees.",
         "design_ref": "DESIGN.md section 4, C17",
         "note": NOTE + " The Python reader (pyoracle/ddjson.py) is part of the trusted base.",
-        "technique": "runtime monitor: generated-text round trips against an independent evaluator + independent (Python) reader of the JSON node tables compared with oracle truth tables; large DIMACS variable numbers, diagrams over spread labels, LogicalExpr::eval",
+        "technique": "runtime monitor: generated-text round trips against an independent evaluator + independent (Python) reader of the JSON node tables compared with oracle truth tables; large DIMACS variable numbers, diagrams over spread labels, LogicalExpr::eval; DIMACS problem lines with zero counts, empty clauses",
     },
     "C19": {
         "level": "Exploration by runtime monitoring at the process boundary: the real binaries built from /repo are run on generated formula / weights / config / DIMACS files and their stdout is compared with exact brute-force counts (fractions) and, for the converters, with the input's truth table through the independent JSON reader.",
         "design_ref": "DESIGN.md section 4, C19",
         "note": NOTE + " Python's fractions and the JSON reader are part of the trusted base.",
-        "technique": "runtime monitor: black-box differential testing of the built binaries against exact brute-force counting and an independent JSON reader",
+        "technique": "runtime monitor: black-box differential testing of the built binaries against exact brute-force counting and an independent JSON reader; clause-free DIMACS inputs",
     },
     "C18": {
         "level": "Exploration by runtime monitoring at the ABI boundary: the exported extern \"C\" symbols are called like a C client would, every call is mirrored natively and checked against the truth-table oracle, diagrams are observed only through the C accessors, counts are compared bit-for-bit; the same workload runs under Miri, AddressSanitizer and valgrind memcheck in the thorough tier.",
         "design_ref": "DESIGN.md section 4, C18",
         "note": NOTE + " The extern declarations in the harness are the stand-in for the C header.",
-        "technique": "runtime monitor: differential call-sequence checking (C ABI vs native vs truth-table oracle) + Miri / AddressSanitizer / valgrind memcheck legs; weights overwritten between counts on the same C tables",
+        "technique": "runtime monitor: differential call-sequence checking (C ABI vs native vs truth-table oracle) + Miri / AddressSanitizer / valgrind memcheck legs; weights overwritten between counts on the same C tables; isolated one-process cases for handle reuse and (NULL, 0) arrays, where death by a signal is the violation",
     },
 }
